@@ -165,6 +165,19 @@ func c12Sides(c *core.Check) {
 				ok = false
 			}
 		}
+		if k == "html/boxes.(*BoxFields).PageValues | fistChild" && !ok {
+			// an only child is asked once for both names; the end name is replaced by the one of the last child when
+			// there is another (rule C01.R12 decides that test). What must hold: the start name is read here, and
+			// neither result of the function is fed by the other name (decided on the data flow below).
+			hasStart := false
+			for _, g := range got {
+				if g == 0 {
+					hasStart = true
+				}
+			}
+			last := found["html/boxes.(*BoxFields).PageValues | lastChild"]
+			ok = hasStart && len(last) == 1 && last[0] == 1
+		}
 		at := "-"
 		if ps, has := pos[k]; has {
 			at = p.Pos(ps)
@@ -185,6 +198,42 @@ func c12Sides(c *core.Check) {
 	sort.Strings(extra)
 	for _, k := range extra {
 		r.Unknown(k+" | PageValues", p.Pos(pos[k]), "a use of PageValues this rule has no expectation for")
+	}
+	// inside PageValues the two names never cross: the start result is not fed by an end name of a child, nor the end
+	// result by a start name
+	if pv := p.Method("html/boxes", "BoxFields", "PageValues"); pv == nil {
+		r.Anchor("html/boxes.(*BoxFields).PageValues")
+	} else {
+		isName := func(idx int) func(ssa.Value) bool {
+			return func(v ssa.Value) bool {
+				ex, ok := v.(*ssa.Extract)
+				if !ok || ex.Index != idx {
+					return false
+				}
+				call, ok := ex.Tuple.(*ssa.Call)
+				if !ok {
+					return false
+				}
+				if call.Call.IsInvoke() {
+					return call.Call.Method.Name() == "PageValues"
+				}
+				cal := call.Call.StaticCallee()
+				return cal != nil && cal.Name() == "PageValues"
+			}
+		}
+		nRet := 0
+		core.Instrs(pv, func(in ssa.Instruction) {
+			ret, ok := in.(*ssa.Return)
+			if !ok || len(ret.Results) != 2 {
+				return
+			}
+			nRet++
+			crossed := core.DerivesFrom(ret.Results[0], isName(1)) || core.DerivesFrom(ret.Results[1], isName(0))
+			r.Cond(!crossed, "html/boxes.(*BoxFields).PageValues | results fed by the names of their own side", p.Pos(ret.Pos()), "start from start names, end from end names", "the start result is fed by the end name of a child, or the end result by a start name")
+		})
+		if nRet == 0 {
+			r.Anchor("html/boxes.(*BoxFields).PageValues: return of two names")
+		}
 	}
 }
 
